@@ -300,6 +300,17 @@ class Ctx:
                 fh.write(ptxt)
             ov["Replace"][os.path.join(REPO, pkg, "zz_verif_common_%s_test.go" % pkgname)] = pcommon
         for src in files:
+            # lint (log only): listeners belong on a process-private loopback address (BUILDING.md, "Never listen on 127.0.0.1")
+            try:
+                with open(src) as fh:
+                    stxt = fh.read()
+                for pat in ('"127.0.0.1:0"', '"localhost:0"', '"0.0.0.0:', 'httptest.NewServer(', 'httptest.NewTLSServer(',
+                            'httptest.NewUnstartedServer(', 'mustStartNSQD(', 'mustStartLookupd(', 'mustStartNSQLookupd('):
+                    if pat in stxt:
+                        self.log("HARNESS-LINT %s uses %s: bind a private loopback address (vfLoopback/vfListen/vfHTTPServer/"
+                                 "vfStartNSQD) - the checks may run in parallel" % (os.path.relpath(src, ROOT), pat))
+            except OSError:
+                pass
             base = os.path.basename(src)
             if not base.endswith("_test.go"):
                 base = base[:-3] + "_test.go"
